@@ -401,6 +401,15 @@ def _os_access(path, mode, *a, **kw):
 def _os_chmod(path, mode, *a, **kw):
     if not _mine(path):
         return _real_os["chmod"](path, mode, *a, **kw)
+    # a metadata operation with its own ways of failing (not the owner, read-only file system)
+    path = os.fspath(path)
+    f = _FS._op("chmod", path, oct(mode))
+    if path not in _FS.files:
+        raise FileNotFoundError(errno.ENOENT, "No such file or directory", path)
+    if f in ("eperm", "eacces"):
+        raise PermissionError(errno.EPERM, "Operation not permitted", path)
+    if f in ("eio", "erofs"):
+        raise OSError(errno.EROFS if f == "erofs" else errno.EIO, "chmod failed", path)
     return None
 
 
